@@ -55,22 +55,27 @@ def run_variant(v, repo=REPO):
 
 
 def main(argv):
+    from concurrent.futures import ThreadPoolExecutor
     vs = json.load(open(os.path.join(HERE, "selftest", "variants.json")))
-    want = set(a.upper() for a in argv[1:])
+    args = list(argv[1:])
+    jobs = int(os.environ.get("VERIF_JOBS", "8"))
+    if "-j" in args:
+        i = args.index("-j")
+        jobs = int(args[i + 1])
+        del args[i:i + 2]
+    want = set(a.upper() for a in args)
+    todo = [v for v in vs if not want or v["property"] in want]
     bad = 0
-    n = 0
-    for v in vs:
-        if want and v["property"] not in want:
-            continue
-        got, detail = run_variant(v)
-        n += 1
-        ok = got == v["expect"] or got == "skipped"
-        if ok and v["expect"] == "violation" and v.get("rule") and got == "violation" and v["rule"] not in detail:
-            ok = False
-        print("%-4s %-40s expect %-9s got %-9s %s %s" % (v["property"], v["id"][:40], v["expect"], got,
-                                                         "" if ok else "<<< UNEXPECTED", detail if not ok or got != "silent" else ""))
-        bad += 0 if ok else 1
-    print("%d variant(s), %d unexpected" % (n, bad))
+    with ThreadPoolExecutor(max_workers=max(1, jobs)) as ex:
+        for v, (got, detail) in zip(todo, ex.map(run_variant, todo)):
+            ok = got == v["expect"] or got == "skipped"
+            if ok and v["expect"] == "violation" and v.get("rule") and got == "violation" and v["rule"] not in detail:
+                ok = False
+            print("%-4s %-40s expect %-9s got %-9s %s %s" % (v["property"], v["id"][:40], v["expect"], got,
+                                                             "" if ok else "<<< UNEXPECTED", detail if not ok or got != "silent" else ""))
+            sys.stdout.flush()
+            bad += 0 if ok else 1
+    print("%d variant(s), %d unexpected" % (len(todo), bad))
     return 1 if bad else 0
 
 
